@@ -257,6 +257,56 @@ fn gen_case(rng: &mut Rng, max_len: usize, with_prefix: bool) -> Case {
     Case { cfg, hr_ascii, nr_ascii, hay, needle }
 }
 
+/// occurrence-rich cases: the haystack is a concatenation of the needle, near misses of it (doubled first
+/// character, truncated, reversed, upper-cased) and separators, so that overlapping / repeated / late
+/// occurrences at and off bonus positions are the norm
+fn gen_occ_case(rng: &mut Rng) -> Case {
+    let mut cfg = rng.below(4) as u32 | ((rng.below(3) as u32) << 3);
+    if rng.chance(1, 4) {
+        cfg |= 4;
+    }
+    let config = config_of(cfg);
+    let uni = rng.chance(1, 2);
+    let alpha: &[char] = if uni { &['a', 'b', 'é', '-', ' ', '1', 'ς', '/'] } else { &['a', 'b', 'c', '-', ' ', '1', '_', '/'] };
+    let nl = 1 + rng.below(4) as usize;
+    let raw: Vec<char> = (0..nl).map(|_| *rng.pick(alpha)).collect();
+    let hr_hint_ascii = !uni;
+    let needle: Vec<char> = raw.iter().map(|&c| norm_any(c, hr_hint_ascii && c.is_ascii(), &config)).collect();
+    let seps: &[&[char]] = &[&[' '], &['/'], &['-'], &['x'], &['_'], &[' ', ' '], &['\t'], &['é'], &['A'], &['1']];
+    let mut hay: Vec<char> = Vec::new();
+    let ntok = 2 + rng.below(7) as usize;
+    for _ in 0..ntok {
+        match rng.below(9) {
+            0 | 1 => hay.extend(needle.iter()),
+            2 => {
+                hay.push(needle[0]);
+                hay.extend(needle.iter());
+            }
+            3 => hay.extend(needle[..needle.len() - 1].iter()),
+            4 => hay.extend(needle.iter().rev()),
+            5 => hay.extend(needle.iter().map(|c| c.to_uppercase().next().unwrap())),
+            6 => {
+                hay.extend(needle.iter());
+                hay.extend(needle.iter());
+            }
+            _ => {
+                let sp = *rng.pick(seps);
+                if uni || sp.iter().all(|c| c.is_ascii()) {
+                    hay.extend(sp.iter());
+                } else {
+                    hay.push(' ');
+                }
+            }
+        }
+    }
+    let hay_is_ascii = hay.iter().all(|c| c.is_ascii());
+    let hr_ascii = hay_is_ascii && rng.chance(3, 4);
+    // re-normalise the needle for the representation actually used
+    let needle: Vec<char> = needle.iter().map(|&c| norm_any(c, hr_ascii, &config)).collect();
+    let nr_ascii = needle.iter().all(|c| c.is_ascii()) && rng.chance(4, 5);
+    Case { cfg, hr_ascii, nr_ascii, hay, needle }
+}
+
 fn exhaustive(r: &mut Runner, maxh: usize, maxn: usize, cfgs: &[u32]) {
     let hal: Vec<char> = vec!['a', 'B', '/', ' ', '1', 'ä', 'ς', '-'];
     let nal: Vec<char> = vec!['a', 'b', '/', ' ', '1', 'ä', 'σ', 'ς', 'B', '-'];
@@ -374,6 +424,15 @@ fn main() {
             for _ in 0..count {
                 let c = gen_case(&mut r.rng.clone(), max_len, true);
                 r.rng.next();
+                r.run_case(&c);
+            }
+        }
+        "occ" => {
+            let count: usize = args[2].parse().unwrap();
+            let shard: u64 = args.get(3).map(|s| s.parse().unwrap()).unwrap_or(0);
+            r.rng = Rng::new(seed.wrapping_mul(999331).wrapping_add(shard) ^ 0x6f63);
+            for _ in 0..count {
+                let c = gen_occ_case(&mut r.rng);
                 r.run_case(&c);
             }
         }
